@@ -1,18 +1,30 @@
 """C15 — shipped transports deliver messages intact and in order (wire schema + codec tables)."""
+import os
+import sys
 import time
-from vlib import Scratch, replay_test
+sys.path.insert(0, os.path.join(os.path.dirname(os.path.abspath(__file__)), "..", "mir2smt"))
+from vlib import Scratch, replay_test, log
 import kprop
 import wirecommon as W
 
 PID = "C15"
+def t(desc, sym):
+    return {"desc": desc, "symbolic": sym, "bounds": "one Sink/Stream call on a fresh transport over a harness byte stream; unwind 4", "covers": 2}
+TRANSPORT = {
+    "c15_close_reaches_the_byte_stream": t("serde_transport::Transport::poll_close shuts the underlying byte stream down exactly once and reports its outcome (Ready/Pending/Err)", ["outcome of the stream's poll_shutdown"]),
+    "c15_flush_is_not_close": t("poll_flush flushes the byte stream and does not shut it down; outcome reported", ["outcome of the stream's poll_flush"]),
+    "c15_eof_ends_the_stream": t("a byte stream at end-of-file ends the transport's Stream with None", []),
+}
 STATIC = {
     "coverage": {
-        "functions_encoded": W.WIRE_FUNCS,
+        "functions_encoded": W.WIRE_FUNCS + ["tarpc::serde_transport::{new, <Transport as Sink>::{poll_flush, poll_close}, <Transport as Stream>::poll_next} over tokio_serde::Framed<tokio_util::codec::Framed<Io, LengthDelimitedCodec>> with a harness byte stream and codec"],
         "outside_claim": ["length-delimited framing under fragmentation (tokio_util Framed + BytesMut: not encodable, DESIGN §1)",
-                          "end-of-stream signalling; the in-memory transports (tokio / futures mpsc)",
+                          "end-of-stream after bytes are in flight (only an idle transport's close/EOF is decided); the in-memory transports (tokio / futures mpsc)",
                           "bodies beyond u32 / [u8;8], non-empty or unicode strings, string escaping in real serde_json"],
     },
-    "assumptions": W.WIRE_ASSUMPTIONS,
+    "assumptions": W.WIRE_ASSUMPTIONS + [
+        "MIR->SMT engine: supports the MIR subset of loop-free integer table functions (const, discriminant, enum constants, switchInt, goto, Serialize/Deserialize/Try calls summarised); anything else = inconclusive; its codec wire functions (varint+zig-zag / fixed width / JSON) are compared cell by cell with the real functions under real bincode / serde_json for all 39 stable kinds on every run; z3 4.8.12 and cvc5 1.0 must agree",
+    ],
 }
 
 
@@ -27,9 +39,19 @@ def main(tier):
             return {"test": "errkind_real_codecs::" + name + " (tokio_serde::formats codec)", "kind_index": str(vals[0]), "reproduced": not ok, "output": out}
 
         metas = {k: v for k, v in W.C15.items() if tier == "thorough" or not v.get("thorough_only")}
+        # "peers that omit optional fields (... a deadline) are still understood": shared with C07
+        metas["c07_default_deadline_request_json"] = W.C07["c07_default_deadline_request_json"]
         recs, viol, known, inc, wall = kprop.decide(PID, tier, s, "wire", metas, timeout_s=1800 if tier == "quick" else 7200, harness_timeout=600 if tier == "quick" else 3600, jobs=8, extra_replay=real_codec)
+        # second crate: the Sink/Stream forwarding of serde_transport::Transport (end-of-stream clause)
+        r2, v2, k2, i2, w2 = kprop.decide(PID, tier, s, "transport", TRANSPORT, timeout_s=1200)
+        recs.update(r2); viol += v2; known += k2; inc += i2; wall += w2
+        # second engine: MIR -> SMT-LIB -> z3 + cvc5 on the error-kind table (independent of Kani)
+        import c15_engine
+        log("  MIR->SMT engine (error-kind table):")
+        mrec, mv, mi = c15_engine.check(s)
+        viol += mv; inc += mi
         okm, outm = replay_test(s, "codec_model", {})
         if not okm:
             inc.append(("codec_model", "wire model disagrees with the real codecs: " + outm[-300:]))
         return kprop.finish(PID, tier, t0, recs, viol, known, inc, STATIC,
-                            {"source_digest": s.src_digest, "kani_wall_s": round(wall, 1), "codec_model_validated_natively": okm})
+                            {"source_digest": s.src_digest, "kani_wall_s": round(wall, 1), "codec_model_validated_natively": okm, "mir_smt_engine": mrec})
